@@ -15,7 +15,7 @@ RULE = ("generated object graphs (lists, tuples, sets, dicts, plain objects; nes
         "py/id numbering and the decoded graph's shape compared in Coq; (rec) stored in a MemoryRecording and read "
         "twice; (cas) saved to and fetched from the in-memory, file and S3 cassettes along a random history of lookups, "
         "fetches and in-place mutations; (play) recorded through TapeRecorder and replayed several times while the "
-        "replayed code mutates what it is handed; (copy) intercepted with copy-on-interception on and off, with and without an input data handler whose recorded form embeds live call arguments (out-parameter, request object), under every way the recording comes to be saved (sampling rate 0 / in between / 1, force_sample_recording() called before, inside or after the interception, after the in-place mutation or at the end of the operation - a probe stream that always runs enumerates rate x enforcement point x handler; and with the operation class inside a class hierarchy whose OTHER members (base, grand-base, mixin, derived, sibling, unrelated class) are configured on the same recorder with a different copy flag / rate, before or after it, the operation defined in the class or inherited, instance or class-level - a second probe stream that always runs enumerates role x flag x registration order x where the operation is defined: the flag that counts is the one registered for the class the operation runs on); (rec, stream unser) values with a leaf the serializer refuses, whose copy cannot be made; (deep) reads made at EVERY remaining stack headroom - the copy needs stack of its own, so for every value there is a band of headrooms below the recursion limit in which it cannot be completed: a probe stream that always runs enumerates headroom 1, 2, 3, .. frames until the read succeeded 8 times in a row, for get_data / __getitem__ of a MemoryRecording and of a recording fetched from each cassette, for get_recording itself, and for every way a replay hands recorded values to replayed code that recurses before asking (plain input, pass-through data handler, play_data, output result, recorded exception; one replay per headroom), on flat, generated and 3-40 level nested values: a read may fail there, it never hands out the stored object graph.  The direct "
+        "replayed code mutates what it is handed; (copy) intercepted with copy-on-interception on and off, with and without an input data handler whose recorded form embeds live call arguments (out-parameter, request object), under every way the recording comes to be saved (sampling rate 0 / in between / 1, force_sample_recording() called before, inside or after the interception, after the in-place mutation or at the end of the operation - a probe stream that always runs enumerates rate x enforcement point x handler; and with the operation class inside a class hierarchy whose OTHER members (base, grand-base, mixin, derived, sibling, unrelated class) are configured on the same recorder with a different copy flag / rate, before or after it, the operation defined in the class or inherited, instance or class-level - a second probe stream that always runs enumerates role x flag x registration order x where the operation is defined: the flag that counts is the one registered for the class the operation runs on; and with the flag given its value in every way a mutable, long-lived RecordingParameters object allows - constructor keyword / positional, keywords of recording_params, or ASSIGNED to the attribute of an existing object before / after its registration, on an object shared by two classes, or by the operation before its first interception - a third probe stream that always runs enumerates way x handler x hierarchy x sampling); (play, stream renamed) replays by a later version of the code whose inputs were renamed - new aliases, the recorded ones as fallback_aliases (list / callable), every input found under a fallback key, asked for twice with an in-place mutation in between; after every replay the played recording holds exactly the keys an independent fetch holds; (rec, stream unser) values with a leaf the serializer refuses, whose copy cannot be made; (deep) reads made at EVERY remaining stack headroom - the copy needs stack of its own, so for every value there is a band of headrooms below the recursion limit in which it cannot be completed: a probe stream that always runs enumerates headroom 1, 2, 3, .. frames until the read succeeded 8 times in a row, for get_data / __getitem__ of a MemoryRecording and of a recording fetched from each cassette, for get_recording itself, and for every way a replay hands recorded values to replayed code that recurses before asking (plain input, pass-through data handler, play_data, output result, recorded exception; one replay per headroom), on flat, generated and 3-40 level nested values: a read may fail there, it never hands out the stored object graph.  The direct "
         "predicate walks the real objects by id() (no shared mutable node between handed-out value and store / other "
         "hand-outs) and compares order-insensitive snapshots before and after the mutations.  non-trivial = at least "
         "one mutable container in a handed-out value; distinct = distinct case")
@@ -210,7 +210,72 @@ def generate(rng, tier):
     cases += sampling_probes(rng)
     cases += deep_probes(rng, tier)
     cases += family_probes(rng, tier)       # (appended last: the streams above draw exactly what they drew before)
+    cases += enable_probes(rng, tier)
+    cases += renamed_probes(rng, tier)
     return cases
+
+
+ENABLE_WAYS = ("ctor", "ctor_pos", "reg_kwargs", "assign_before_reg", "assign_after_reg", "assign_shared", "assign_in_op")
+
+
+def enable_probes(rng, tier):
+    """"With copy-on-interception ENABLED": RecordingParameters is a plain mutable object that lives as long as the recorder,
+    so the option can get its value in several ways - constructor keyword, constructor positional, keyword arguments of
+    TapeRecorder.recording_params, or ASSIGNED to the attribute of an existing parameters object (constructed with the
+    opposite value): before it is registered, after it was registered, on one object registered for two classes, or by the
+    operation itself before its first interception.  Always run, both tiers, enumerated: way x no handler / data handler x
+    flat class / class hierarchy with a differently configured base x default sampling / rate 0 enforced after the capture
+    (copy-on in all of them).  Then a random stream over the same ways with the flag on or off (assigning False to an
+    object constructed with True turns copying off: nothing claimed), any handler form, rate and enforcement point."""
+    out = []
+    for way in ENABLE_WAYS:
+        for hform in (None, "dict"):
+            for fam in (None, dict(register=[["base", {"copy": False, "rate": None}], ["own", None]], op_in="own", classlevel=False)):
+                for rate, force in ((None, None), (0, "after_input")):
+                    c = _copy_case(rng, stream="enable", enable=way, hform=hform)
+                    if fam:
+                        c["family"] = fam
+                    if rate is not None:
+                        c.update(rate=rate, rseed=rng.randrange(1000), force=force)
+                    out.append(c)
+    for _ in range(20 if tier == "quick" else 300):
+        c = _copy_case(rng, stream="enable", enable=rng.choice(ENABLE_WAYS), copy=rng.random() < 0.75,
+                       vin=value_graph(rng, big=rng.random() < 0.3), vout=value_graph(rng), script=rand_script(rng),
+                       hform=rng.choice([None, None, None] + list(HFORMS)), via=rng.choice(["arg", "arg", "kwarg"]),
+                       static=rng.random() < 0.25)
+        if rng.random() < 0.3:
+            c["family"] = dict(register=[[rng.choice(FAMILY_ROLES), {"copy": rng.random() < 0.5, "rate": None}], ["own", None]][::rng.choice((1, -1))],
+                               op_in=rng.choice(["own", "base"]), classlevel=rng.random() < 0.25)
+        if rng.random() < 0.5:
+            c["rate"] = rng.choice(RATES)
+            c["rseed"] = rng.randrange(1000)
+            c["force"] = rng.choice(FORCE_POINTS) if (c["rate"] == 0 or rng.random() < 0.5) else None
+        out.append(c)
+    return out
+
+
+def renamed_probes(rng, tier):
+    """Replays by a LATER VERSION of the code whose inputs were renamed: it declares them under new aliases with the recorded
+    ones as fallback_aliases (a list whose first entry was never recorded either, or a function of the call's arguments), so
+    every injected input (plain, through a data handler with an out-parameter, a recorded exception) is found under a
+    fallback key.  The replayed code asks for each of them twice and mutates the first answer in between; everything a
+    replay hands out is mutated before the next replay.  Always run, both tiers: cassette x list / callable x two histories."""
+    out = []
+    n = 0
+    for ctype in CTYPES:
+        for how in ("list", "callable"):
+            for pre in (["none", "none"], ["lookup", "fetch_mutate", "none"]):
+                vin = value_graph(rng)
+                if not any(nd["k"] in hg.MUTABLE_KINDS for nd in vin["heap"]) or n % 2 == 0:
+                    vin = _g([T(R(1), pv.i(3)), L(pv.i(30), pv.i(10), pv.i(20))])
+                out.append(dict(kind="play", stream="renamed", renamed=how, ctype=ctype, vin=vin, vout=value_graph(rng),
+                                vdata=value_graph(rng), pre_steps=pre, script=[[0, 1], [1, 3]] if n % 2 == 0 else rand_script(rng)))
+                n += 1
+    for _ in range(0 if tier == "quick" else 60):
+        pre = [rng.choice(["none", "lookup", "lookup_meta", "fetch_mutate"]) for _ in range(rng.randrange(2, 4))]
+        out.append(dict(kind="play", stream="renamed", renamed=rng.choice(["list", "callable"]), ctype=rng.choice(CTYPES),
+                        vin=value_graph(rng), vout=value_graph(rng), vdata=value_graph(rng), pre_steps=pre, script=rand_script(rng)))
+    return out
 
 
 def _copy_case(rng, **kw):
@@ -471,19 +536,24 @@ def direct(case, obs):
         p0 = obs["plays"][0] if obs["plays"] else None
         for i, p in enumerate(obs["plays"]):
             if p["share_injected_recording"]:
-                f.append(("play-%s-injected-shares-recording" % t, "replay %d: a value handed to the replayed code shares a mutable node with "
-                          "the playback recording: %r" % (i, p["share_detail"])))
+                f.append(("play-%s-injected-shares-recording" % t, "replay %d%s: a value handed to the replayed code shares a mutable node with "
+                          "the playback recording: %r" % (i, _renamed_text(case), p["share_detail"])))
             if p["share_two_reads"]:
                 f.append(("play-%s-two-injections-share" % t, "replay %d: two values injected for the same key share a mutable node" % i))
             if not all(p["second_read_same"]):
-                f.append(("play-%s-second-injection-sees-mutation" % t, "replay %d: the replayed code mutated an injected value and the next "
-                          "injection of the same key differs (input/data/exception: %r)" % (i, p["second_read_same"])))
+                f.append(("play-%s-second-injection-sees-mutation" % t, "replay %d%s: the replayed code mutated an injected value and the next "
+                          "injection of the same key differs (input/data/exception/out-parameter: %r)" %
+                          (i, _renamed_text(case), p["second_read_same"])))
             if _sh(p["share_outputs_recording"]):
                 f.append(("play-%s-recorded-outputs-share-recording" % t, "replay %d: Playback.recorded_outputs shares %r with the recording" %
                           (i, p["share_outputs_recording"])))
             if _sh(p["share_earlier_plays"]):
                 f.append(("play-%s-replays-share" % t, "replay %d shares a mutable node with what an earlier replay/fetch handed out: %r" %
                           (i, p["share_earlier_plays"])))
+            if p.get("recording_keys", []) != p.get("recording_keys_fetched", []):
+                f.append(("play-%s-replay-changes-recording-keys" % t, "replay %d%s: after the replay the played recording "
+                          "(Playback.original_recording) holds keys %r, an independent fetch of the same id made before holds %r" %
+                          (i, _renamed_text(case), p.get("recording_keys"), p.get("recording_keys_fetched"))))
             if not p["duration_ok"]:
                 f.append(("play-%s-later-replay-differs" % t, "replay %d (after %s): recorded_duration is not the recorded one" % (i, p["pre"])))
             if i > 0:
@@ -509,6 +579,8 @@ def direct(case, obs):
                     how += "; sampling rate %r, force_sample_recording() at %r" % (case.get("rate"), case.get("force"))
                 if case.get("family"):
                     how += "; " + _family_text(case["family"])
+                if case.get("enable", "ctor") != "ctor":
+                    how += "; copy flag set by: " + ENABLE_TEXT[case["enable"]]
                 if _sh(o["share_recorded_result"]):
                     f.append(("copy-on-recorded-shares-result", "%s (%s): with copy-on-interception the recorded value shares %r with the value "
                               "returned to the service" % (o["tag"], how, o["share_recorded_result"])))
@@ -520,6 +592,23 @@ def direct(case, obs):
                     f.append(("copy-on-recording-follows-later-mutation", "%s (%s): with copy-on-interception the recorded value is not the copy "
                               "of what was captured: %s vs %s" % (o["tag"], how, o.get("recorded_snap"), o.get("at_capture"))))
     return f
+
+
+ENABLE_TEXT = {
+    "ctor_pos": "RecordingParameters(rate, False, False, flag) (positional)",
+    "reg_kwargs": "recorder.recording_params(copy_data_on_intercepion=flag, ..) (keywords of the registration)",
+    "assign_before_reg": "params.copy_data_on_intercepion = flag assigned on an existing parameters object before it is registered",
+    "assign_after_reg": "params.copy_data_on_intercepion = flag assigned after the parameters object was registered for the class",
+    "assign_shared": "params.copy_data_on_intercepion = flag assigned on one parameters object registered for two classes",
+    "assign_in_op": "params.copy_data_on_intercepion = flag assigned by the operation before its first interception",
+}
+
+
+def _renamed_text(case):
+    if not case.get("renamed"):
+        return ""
+    return (" (the replayed code declares its inputs under new aliases <alias>_v2 with fallback_aliases = [<alias>_v0, <recorded alias>] "
+            "given as a %s)" % case["renamed"])
 
 
 def _family_text(fam):
@@ -686,6 +775,8 @@ def features(case):
         f.add("step:" + s)
     for s in case.get("pre_steps", []):
         f.add("before-replay:" + s)
+    if case["kind"] == "play":
+        f.add("replayed-code-aliases:%s" % ("renamed, recorded alias as fallback (%s)" % case["renamed"] if case.get("renamed") else "as recorded"))
     if case["kind"] == "deep":
         f.add("deep:" + case["path"])
         f.add("read-at-every-stack-headroom")
@@ -701,6 +792,7 @@ def features(case):
         f.add("sampling-enforced:%s" % case.get("force"))
         if case["copy"] and rate == 0 and case.get("force") in ("after_input", "after_mutation", "end"):
             f.add("copy-on:rate-0-enforced-after-capture")
+        f.add("copy-flag-set-by:%s" % case.get("enable", "ctor"))
         fam = case.get("family")
         f.add("operation-class:%s" % ("in-hierarchy" if fam else "flat, the only configured class"))
         if fam:
@@ -724,7 +816,7 @@ def nontrivial(case):
 
 MANIFEST = dict(
     design_ref='6/C11',
-    text="Coq theorems on a heap model where identity and in-place mutation are expressible (locations, list/tuple/set/dict/object nodes): decode allocates only new locations (the old heap is a prefix, everything reachable from the result is new); a get_data result is such a decode of the stored datum's encoding, and for EVERY heap that agrees with the old one on the old locations - in particular after any sequence of in-place mutations and allocations made through the handed-out value (mutation locality + closure theorem) - the stored datum and the whole recording encode exactly as before; cassettes hold text, two fetches of one id occupy disjoint location ranges and mutating one changes neither the other nor a later fetch; with copy-on-interception the recorded value is a decode of the result's encoding at capture and later mutation of the result leaves its encoding unchanged, with the flag off a concrete example shows the recording does change (documented aliasing); a copy re-encodes to the same JSON, so reads and copy-on recordings are faithful (three _partial theorems: proved for canonical encodings without py/id, i.e. no list/object met twice; false with py/id, witness example).  The model (jsonpickle 0.9.3 encode incl. py/id numbering, decode incl. id table and the second restore pass over object state) is tied to /repo on every run by comparing exact encode text, decoded graph shape and re-encode text for generated graphs with sharing and cycles.  Direct predicate on the real MemoryRecording, TapeRecorder.play, recorded_outputs, copy-on-interception (for every sampling rate / enforced-sampling point under which the recording is saved, for a flat operation class and for one inside a class hierarchy whose other classes are configured differently on the same recorder) and all three cassettes - at ordinary stack depth and, enumerated frame by frame, at every stack headroom at which the copy a read has to make cannot be completed (a read may raise there, never hand out the stored object) - : id()-walk disjointness of mutable nodes between every handed-out value and the store / other hand-outs, then scripted in-place mutation through every reachable mutable node and re-read / re-fetch / re-play comparison.",
+    text="Coq theorems on a heap model where identity and in-place mutation are expressible (locations, list/tuple/set/dict/object nodes): decode allocates only new locations (the old heap is a prefix, everything reachable from the result is new); a get_data result is such a decode of the stored datum's encoding, and for EVERY heap that agrees with the old one on the old locations - in particular after any sequence of in-place mutations and allocations made through the handed-out value (mutation locality + closure theorem) - the stored datum and the whole recording encode exactly as before; cassettes hold text, two fetches of one id occupy disjoint location ranges and mutating one changes neither the other nor a later fetch; with copy-on-interception the recorded value is a decode of the result's encoding at capture and later mutation of the result leaves its encoding unchanged, with the flag off a concrete example shows the recording does change (documented aliasing); a copy re-encodes to the same JSON, so reads and copy-on recordings are faithful (three _partial theorems: proved for canonical encodings without py/id, i.e. no list/object met twice; false with py/id, witness example).  The model (jsonpickle 0.9.3 encode incl. py/id numbering, decode incl. id table and the second restore pass over object state) is tied to /repo on every run by comparing exact encode text, decoded graph shape and re-encode text for generated graphs with sharing and cycles.  Direct predicate on the real MemoryRecording, TapeRecorder.play, recorded_outputs, copy-on-interception (for every sampling rate / enforced-sampling point under which the recording is saved, for a flat operation class and for one inside a class hierarchy whose other classes are configured differently on the same recorder, the option enabled through the constructor, the registration keywords or by assigning the attribute of an existing parameters object), replays whose inputs are found under fallback aliases, and all three cassettes - at ordinary stack depth and, enumerated frame by frame, at every stack headroom at which the copy a read has to make cannot be completed (a read may raise there, never hand out the stored object) - : id()-walk disjointness of mutable nodes between every handed-out value and the store / other hand-outs, then scripted in-place mutation through every reachable mutable node and re-read / re-fetch / re-play comparison.",
     note='Trusted: Coq kernel + vm_compute; hand-written heap model of jsonpickle 0.9.3 on py3.12 for lists/tuples/sets/str-keyed dicts/plain objects (custom __getstate__/__reduce__ classes, non-str keys, exceptions are outside the model and covered by the direct predicate only); json.dumps/json.loads taken as inverse on pickler output; quoted-printable oracle.  Round trip of a copy is proved for id-free encodings only (partial): with shared lists/objects jsonpickle itself mis-resolves py/id after an object whose state holds a list (model reproduces it; a fidelity matter of C07, not independence).  Output arguments are never copied even with copy-on (flag covers intercepted return values): observation, not claimed.',
     technique='Coq proof (fuel induction over a heap model with explicit locations; locality/frame lemmas) + exact-text and graph-shape correspondence by vm_compute + id()-based aliasing walk and mutate/re-read/re-fetch/re-play differential run on the real classes',
 )
